@@ -175,3 +175,39 @@ func VerifC11_CacheURL() {
 	verifapi.Assert(got.RawPath == wantRaw, "the path is the cache path, /c, /s for https, the publisher host and the publisher's path")
 	verifapi.Assert(got.Path == "unesc:"+wantRaw, "Path is the unescaped RawPath")
 }
+
+// ---- the basic domain-prefix algorithm (steps 2-4 of the AMP cache URL format), with IDNA as
+// the identity (its tables are outside the claim) ------------------------------------------------
+
+func verifIDNAIdentity(s string) (string, error) { return s, nil }
+
+func VerifC11_PrefixBasic() {
+	n := verifapi.Concrete(verifapi.Choice("domain.len", verifapi.Param("domlen", 5)+1))
+	d := make([]byte, n)
+	for i := range d {
+		d[i] = [3]byte{'a', '-', '.'}[verifapi.Concrete(verifapi.Choice("domain.char", 3))]
+	}
+	got, err := domainPrefixBasic(string(d))
+	verifapi.Assert(err == nil, "the basic algorithm succeeds on an ASCII domain")
+	// reference, from the AMP cache URL specification: every '-' doubled, then every '.' a '-',
+	// and "0-"..."-0" around a result with hyphens in positions 3 and 4
+	var want []byte
+	for _, c := range d {
+		switch c {
+		case '-':
+			want = append(want, '-', '-')
+		case '.':
+			want = append(want, '-')
+		default:
+			want = append(want, c)
+		}
+	}
+	if len(want) >= 4 && want[2] == '-' && want[3] == '-' {
+		want = append(append([]byte("0-"), want...), '-', '0')
+	}
+	verifapi.Cover("basic prefix computed")
+	verifapi.Assert(got == string(want), "the domain prefix is the one the AMP specification prescribes (hyphens doubled, dots to hyphens, 0-...-0 guard)")
+	for i := 0; i < len(got); i++ {
+		verifapi.Assert(got[i] != '.', "the prefix is a single dot-free label")
+	}
+}
